@@ -19,3 +19,4 @@
 ;@ghost nops Int
 ; the log on disk holds at least one numbered record written since its last truncation (keeps the LSN high-water mark)
 ;@ghost hwm Bool
+;@ghost logdur Bool
